@@ -30,6 +30,27 @@ func genNumKey(repo string) (string, error) {
 	// by use, not by name: the key is the expression the map of abstract numbering definitions is indexed with (in
 	// getOrCreateNumbering or a function of the package it calls); its fields are the fields of the *ListConfig
 	// parameter that occur in the expression (or in the definition of the variable that holds it)
+	// the cache, by shape: the struct fields of the package of type map[string]*AbstractNum
+	cacheFields := map[string]bool{}
+	for _, fn := range p.sortedFiles() {
+		ast.Inspect(p.files[fn], func(n ast.Node) bool {
+			st, ok := n.(*ast.StructType)
+			if !ok {
+				return true
+			}
+			for _, f := range st.Fields.List {
+				if mt, ok := f.Type.(*ast.MapType); ok && exprString(mt.Key) == "string" && exprString(mt.Value) == "*AbstractNum" {
+					for _, nm := range f.Names {
+						cacheFields[nm.Name] = true
+					}
+				}
+			}
+			return true
+		})
+	}
+	if len(cacheFields) == 0 {
+		return "", fmt.Errorf("no struct field of type map[string]*AbstractNum (the cache of abstract numbering definitions) found")
+	}
 	var fields []string
 	found := false
 	for _, g := range reachFuncs(p, fd, 3, map[string]bool{}) {
@@ -46,8 +67,10 @@ func genNumKey(repo string) (string, error) {
 		var keyExprs []ast.Expr
 		ast.Inspect(g.Body, func(n ast.Node) bool {
 			ie, ok := n.(*ast.IndexExpr)
-			if ok && strings.HasSuffix(exprStringDeep(ie.X), ".abstractNums") {
-				keyExprs = append(keyExprs, ie.Index)
+			if ok {
+				if sel, isSel := ie.X.(*ast.SelectorExpr); isSel && cacheFields[sel.Sel.Name] {
+					keyExprs = append(keyExprs, ie.Index)
+				}
 			}
 			return true
 		})
@@ -84,7 +107,7 @@ func genNumKey(repo string) (string, error) {
 		}
 	}
 	if !found {
-		return "", fmt.Errorf("the key of the abstract numbering cache (index of .abstractNums) does not mention the list configuration")
+		return "", fmt.Errorf("the key of the abstract numbering cache (the index of a map[string]*AbstractNum field) does not mention the list configuration")
 	}
 	// level range: for i := LO; i <= HI; i++ in createAbstractNum (literals or named constants)
 	consts := numConsts(p)
